@@ -10,7 +10,9 @@ package main
 //                     all-candidates index are printed; the Lean model (LemoModel/Ranking.lean) prints
 //                     the same.  Direct oracle: the top list must be the Go full sort of the candidates
 //                     that are registered in the block's own account view, cut to the list size, and
-//                     must be the same on a store that was never re-opened.
+//                     must be the same on a store that was never re-opened.  (The tie defect and the
+//                     empty-index-after-restart defect are repaired in /repo — fixes 991f3e9, d292196 —
+//                     their oracles c10/top-not-sorted-prefix/tie and c10/restart-differs stay armed.)
 // Part C  engine    : three deterministic node-toolkit scenarios around a term-snapshot block
 //                     (c10_engine.go); model op `seal`.
 
